@@ -34,7 +34,7 @@ The code base is RisingLight, an educational OLAP SQL database (parser → binde
 Quantifier: {p['quantifier']['text']}
 Relevant source files (starting points): {', '.join(files)}
 
-Other people have already planted defects of this kind: {others}. Choose a DIFFERENT mechanism in a different function (and preferably a different file) from all of them; do NOT touch `src/storage/secondary/merge_iterator.rs` (its merge heap has been mutated five times by others already, for several properties); prefer a place none of them is near (a different layer of the system: parser/binder, planner analysis, cost model, executor, array kernels, storage format, manifest, catalog, options handling, background tasks), and a defect that needs TWO things to coincide (a particular data layout AND a particular query shape, two cooperating sites, an option AND an input, an interleaving AND a state).
+Other people have already planted defects of this kind: {others}. Choose a DIFFERENT mechanism in a different function (and preferably a different file) from all of them; do NOT use any of the mechanisms that others have planted more than once for other properties: the merge heap of `src/storage/secondary/merge_iterator.rs`, the DeleteDV loop of `Compactor::compact_table` running over all row-sets, the early return of `drop_table_inner` for a table without row-sets, `SortAggExecutor` comparing keys within one chunk only, `TopN` skipping rows that tie on the first key, the sift-down / child choice of any heap; prefer a place none of them is near (a different layer of the system: parser/binder, planner analysis, cost model, executor, array kernels, storage format, manifest, catalog, options handling, background tasks), and a defect that needs TWO things to coincide (a particular data layout AND a particular query shape, two cooperating sites, an option AND an input, an interleaving AND a state).
 
 Your task: design a small, realistic code change (the kind of slip a maintainer could make in a refactoring or optimisation: an off-by-one at a boundary, a dropped NULL check, a swapped branch, a wrong bound, a missing lock/flush step, a stale cached value, two sites that each look fine alone …) that BREAKS this property while
  1. the crate still compiles (`cargo build --offline` in the worktree),
